@@ -36,3 +36,4 @@ uint8_t vfr_is_canonical_of_raw(opensmt::FastRational *r, uint32_t n, uint32_t d
 void vfr_make_integer(opensmt::FastRational *x, uint8_t kinds);
 uint8_t vfr_is_uint(opensmt::FastRational *r, uint32_t v);
 }
+extern "C" { uint8_t vfr_int_bounds_ok(uint8_t strict, uint8_t sc, uint8_t sub, uint8_t slb); }
